@@ -3,7 +3,7 @@
 Model: spec/ProtoDeser.tla (small-step deserializer over EoReader).  TLC (MC_Proto): mode "hostile" - every valid
 serialization of the bounded objects, then every single-fault corruption (every truncation, substitutions and
 insertions biased to 00/FE/FF, appended junk), both entry modes; mode "bytes" - every byte string up to length 3
-over {0,1,2,254,255}; invariants InBounds, OnlyDocumentedError, mode restoration; liveness Terminates under weak
+over {0,1,2,3,254,255}; invariants InBounds, OnlyDocumentedError, mode restoration; liveness Terminates under weak
 fairness on a slice.  Binding: R - every (program, bytes) pair TLC emits is fed to the generated deserialize; the
 object, the exception class and the reader position must be the model's."""
 from __future__ import annotations
@@ -25,7 +25,8 @@ INV = ("PInBounds", "POnlyDocumentedError", "DeLeavesModeAsFound")
 def de_records(tier, tmp, progs, types, need_unwind=True):
     recs, stats = [], {"states": 0, "transitions": 0, "runs": []}
     light = tier == "quick"
-    sel = progs if tier == "thorough" else progs[(int(__import__("os").environ.get("VERIF_SEED", "0")) % 4)::4]
+    # quick: every hand-written program, one in four of the generated ones
+    sel = progs if tier == "thorough" else [p for p in progs if not p.get("gen")] + [p for p in progs if p.get("gen")][(int(__import__("os").environ.get("VERIF_SEED", "0")) % 4)::4]
     r1, s1 = collect(tier, tmp, sel, types, "hostile", rich=False, invariants=INV, properties=("PDModeRestored",), tag="ho", light=light)
     r2, s2 = collect(tier, tmp, progs, types, "bytes", rich=False, maxbytes=3 if light else 4, invariants=INV, properties=("PDModeRestored",), tag="by")
     for s, name in ((s1, "hostile"), (s2, "bytes")):
@@ -147,7 +148,7 @@ def run(tier, corrupt=False):
            "samples": tot["samples"], "program_groups": len(groups),
            "exhaustive": False,
            "explanation": "hostile: all single-fault corruptions of all valid serializations over the bounded object domains; bytes: all short byte "
-                          "strings over {0,1,2,254,255}; each replayed on the generated deserialize"}
+                          "strings over {0,1,2,3,254,255}; each replayed on the generated deserialize"}
     return v.finish(cov, ["the corpus bounds 'all programs'", "array loops beyond 64 iterations (three/int length fields on hostile bytes) are outside the bound",
                           "TLC semantics"])
 
